@@ -417,3 +417,70 @@ def prec_grammar(rng, idx, helper=False):
     cg["no_machine"] = True
     cg["bound"] = (5, 7)   # operator sequences: a op a op a needs five tokens
     return cg
+
+
+def min_lengths(cg):
+    INF = 10 ** 6
+    ml = {nt: INF for nt in cg["nts"]}
+    ch = True
+    while ch:
+        ch = False
+        for p in cg["prods"]:
+            if "error" in p["rhs"]:
+                continue
+            v = sum((1 if x in cg["ts"] else ml[x]) for x in p["rhs"])
+            if v < ml[p["lhs"]]:
+                ml[p["lhs"]] = v
+                ch = True
+    return ml
+
+
+def random_sentence(cg, start, rng, target=24):
+    """a sentence of `start` by random derivation (None if it derives nothing)"""
+    ml = min_lengths(cg)
+    if ml[start] >= 10 ** 6:
+        return None
+    out = []
+
+    def expand(nt, budget, depth):
+        alts = [p for p in cg["prods"] if p["lhs"] == nt and "error" not in p["rhs"]]
+        def cost(p):
+            return sum((1 if x in cg["ts"] else ml[x]) for x in p["rhs"])
+        ok = [p for p in alts if cost(p) <= max(budget, ml[nt])]
+        if depth > 40 or not ok:
+            ok = [min(alts, key=cost)]
+        # prefer longer alternatives while there is budget
+        p = rng.choice(ok if budget > ml[nt] else [min(ok, key=cost)])
+        rest = budget - cost(p)
+        for x in p["rhs"]:
+            if x in cg["ts"]:
+                out.append(x)
+            else:
+                share = ml[x] + (rng.randint(0, max(rest, 0)) if rest > 0 else 0)
+                before = len(out)
+                expand(x, share, depth + 1)
+                rest -= max(0, (len(out) - before) - ml[x])
+
+    expand(start, target, 0)
+    return out[:80]
+
+
+def long_inputs(cg, start, rng, k=6, target=24):
+    """sentences and single-token mutations of sentences"""
+    res = []
+    for _ in range(k):
+        s = random_sentence(cg, start, rng, target=rng.choice([8, 16, target, 2 * target]))
+        if s is None:
+            break
+        r = rng.random()
+        if r < 0.4 or not s:
+            pass
+        elif r < 0.6:
+            del s[rng.randrange(len(s))]
+        elif r < 0.8:
+            s.insert(rng.randint(0, len(s)), rng.choice(cg["ts"]))
+        else:
+            s[rng.randrange(len(s))] = rng.choice(cg["ts"])
+        if s not in res and len(s) > 0:
+            res.append(s)
+    return res
